@@ -110,6 +110,10 @@ func (e *Executor) setupFuzzyModel() {
 
 	model.Train(words)
 	e.fuzzyModel = model
+	e.fuzzyModelMaxLen = 0
+	for _, word := range words {
+		e.fuzzyModelMaxLen = max(e.fuzzyModelMaxLen, len(word))
+	}
 }
 
 func (e *Executor) setupTempDir() error {
